@@ -9,6 +9,7 @@ fn main() {
         "terms" => sv::terms::main(&args[2..]),
         "mem" => sv::mem::main(&args[2..]),
         "iri" => sv::iri::main(&args[2..]),
+        "iso" => sv::iso::main(&args[2..]),
         _ => {
             eprintln!("unknown family {fam}");
             std::process::exit(2);
